@@ -39,9 +39,10 @@ VARIABLES work,       \* working tree of the live handle
           iv,         \* initial version option of this store (0 = unset)
           nops,       \* uncommitted writes since the last commit/load (bounding only)
           wm, vm,     \* ghost: working map, versioned maps (Keys -> Vals \cup {Absent})
+          wlog,       \* ghost (generation only): the writes since the last commit/load, as change-set pairs
           hist, done
 
-vars == <<work, saved, first, latest, version, fast, iv, nops, wm, vm, hist, done>>
+vars == <<work, saved, first, latest, version, fast, iv, nops, wm, vm, wlog, hist, done>>
 view == <<work, saved, first, latest, version, fast, iv, nops>>
 
 EmptyMap == [k \in Keys |-> Absent]
@@ -56,7 +57,7 @@ Target == TargetOf(version, iv)
 
 Init == /\ work = Nil /\ saved = <<>> /\ first = 0 /\ latest = 0 /\ version = 0
         /\ fast \in BOOLEAN /\ iv \in IVs /\ nops = 0
-        /\ wm = EmptyMap /\ vm = <<>>
+        /\ wm = EmptyMap /\ vm = <<>> /\ wlog = <<>>
         /\ hist = <<>> /\ done = FALSE
 
 \* every step record carries the expected observable state after the call
@@ -66,55 +67,88 @@ Step(op, a, r) == [op |-> op, a |-> a, r |-> r,
                    work |-> work']
 Log(op, a, r) == hist' = IF Record THEN Append(hist, Step(op, a, r)) ELSE hist
 
-Same(vs) == UNCHANGED vs
+WLog(x) == wlog' = IF Record THEN Append(wlog, x) ELSE wlog
+WClear  == wlog' = <<>>
 
 ---------------------------------------------------------------------------
 Set(k, v) ==
   LET r == SetT(work, k, v) IN
   /\ work' = r.t /\ wm' = [wm EXCEPT ![k] = v] /\ nops' = nops + 1
+  /\ WLog([k |-> k, v |-> v, del |-> FALSE])
   /\ UNCHANGED <<saved, first, latest, version, fast, iv, vm, done>>
   /\ Log("set", [k |-> k, v |-> v], [upd |-> r.upd, err |-> FALSE])
 
 \* a nil value is rejected without effect
 SetNil(k) ==
-  /\ UNCHANGED <<work, saved, first, latest, version, fast, iv, nops, wm, vm, done>>
+  /\ UNCHANGED <<work, saved, first, latest, version, fast, iv, nops, wm, vm, wlog, done>>
   /\ Log("setnil", [k |-> k], [err |-> TRUE])
 
 Remove(k) ==
   LET r == RemT(work, k) IN
   /\ work' = r.t /\ wm' = [wm EXCEPT ![k] = Absent] /\ nops' = nops + 1
+  /\ WLog([k |-> k, v |-> 0, del |-> TRUE])
   /\ UNCHANGED <<saved, first, latest, version, fast, iv, vm, done>>
   /\ Log("rm", [k |-> k], [rem |-> r.rem, val |-> IF r.rem THEN r.val ELSE Absent, err |-> FALSE])
 
-\* SaveVersion: a new version, or - when the target exists - a no-op iff the hash is identical
-SaveVersion ==
+\* SaveVersion: a new version, or - when the target exists - a no-op iff the hash is identical.
+\* w, m, lg: the working tree, working map and write log to commit (SaveChangeSet applies its pairs first).
+SaveCore(op, a, w, m, lg) ==
   LET t == Target IN
   IF t \in Retained THEN
-     IF SameHash(Stamp(work, t), saved[t]) THEN
-        /\ version' = t /\ work' = saved[t] /\ wm' = vm[t] /\ nops' = 0
+     IF SameHash(Stamp(w, t), saved[t]) THEN
+        /\ version' = t /\ work' = saved[t] /\ wm' = vm[t] /\ nops' = 0 /\ WClear
         /\ UNCHANGED <<saved, first, latest, fast, iv, vm, done>>
-        /\ Log("save", <<>>, [ver |-> t, err |-> FALSE, noop |-> TRUE, tree |-> saved[t]])
+        /\ Log(op, a, [ver |-> t, err |-> FALSE, noop |-> TRUE, tree |-> saved[t]])
      ELSE
-        /\ UNCHANGED <<work, saved, first, latest, version, fast, iv, nops, wm, vm, done>>
-        /\ Log("save", <<>>, [ver |-> t, err |-> TRUE, noop |-> FALSE, tree |-> Nil])
+        /\ work' = w /\ wm' = m /\ wlog' = lg
+        /\ UNCHANGED <<saved, first, latest, version, fast, iv, nops, vm, done>>
+        /\ Log(op, a, [ver |-> t, err |-> TRUE, noop |-> FALSE, tree |-> Nil])
   ELSE
-     LET s == Stamp(work, t) IN
+     LET s == Stamp(w, t)
+         cs == Changes(TreeAt(version), s, t - 1) IN
      /\ saved' = (t :> s) @@ saved
-     /\ vm' = (t :> wm) @@ vm
+     /\ vm' = (t :> m) @@ vm
      /\ latest' = t /\ version' = t /\ first' = IF first = 0 THEN t ELSE first
-     /\ work' = s /\ nops' = 0
-     /\ UNCHANGED <<fast, iv, wm, done>>
-     /\ Log("save", <<>>, [ver |-> t, err |-> FALSE, noop |-> FALSE, tree |-> s])
+     /\ work' = s /\ wm' = m /\ nops' = 0 /\ WClear
+     /\ UNCHANGED <<fast, iv, done>>
+     \* cs: the change set TraverseStateChanges must report for t; nf: the writes of this version
+     \* were already in that normal form (then replaying cs reproduces the same tree, hence hash)
+     /\ Log(op, a, [ver |-> t, err |-> FALSE, noop |-> FALSE, tree |-> s, cs |-> cs, nf |-> (lg = cs), pred |-> version])
+SaveVersion == SaveCore("save", <<>>, work, wm, wlog)
+
+\* SaveChangeSet(cs): apply the pairs in order, then commit. A removal of a missing key is an
+\* error (no version is created; the pairs before it stay applied to the working tree).
+\* Uncommitted changes in the working tree: error, nothing happens.
+RECURSIVE ApplyCS(_, _, _, _)
+ApplyCS(t, m, cs, j) ==    \* returns [t, m, bad]: bad = index of the failing pair or 0
+  IF j > Len(cs) THEN [t |-> t, m |-> m, bad |-> 0]
+  ELSE LET c == cs[j] IN
+       IF c.del THEN LET r == RemT(t, c.k) IN
+                     IF ~r.rem THEN [t |-> t, m |-> m, bad |-> j]
+                     ELSE ApplyCS(r.t, [m EXCEPT ![c.k] = Absent], cs, j + 1)
+       ELSE ApplyCS(SetT(t, c.k, c.v).t, [m EXCEPT ![c.k] = c.v], cs, j + 1)
+Dirty == ~IsNil(work) /\ work.ver = 0
+SaveChangeSet(cs) ==
+  IF Dirty THEN
+     /\ UNCHANGED <<work, saved, first, latest, version, fast, iv, nops, wm, vm, wlog, done>>
+     /\ Log("savecs", [cs |-> cs], [err |-> TRUE, dirty |-> TRUE])
+  ELSE LET r == ApplyCS(work, wm, cs, 1) IN
+     IF r.bad # 0 THEN
+        /\ work' = r.t /\ wm' = r.m /\ nops' = nops + 1
+        /\ wlog' = IF Record THEN wlog \o SubSeq(cs, 1, r.bad - 1) ELSE wlog
+        /\ UNCHANGED <<saved, first, latest, version, fast, iv, vm, done>>
+        /\ Log("savecs", [cs |-> cs], [err |-> TRUE, dirty |-> FALSE])
+     ELSE SaveCore("savecs", [cs |-> cs], r.t, r.m, IF Record THEN wlog \o cs ELSE wlog)
 
 \* discard uncommitted changes
 Rollback ==
-  /\ work' = TreeAt(version) /\ wm' = MapAt(version) /\ nops' = 0
+  /\ work' = TreeAt(version) /\ wm' = MapAt(version) /\ nops' = 0 /\ WClear
   /\ UNCHANGED <<saved, first, latest, version, fast, iv, vm, done>>
   /\ Log("rollback", <<>>, [err |-> FALSE])
 
 \* close the handle, open a new one (fast index on/off chosen per open), Load() the latest version
 Reopen(f) ==
-  /\ fast' = f /\ version' = latest /\ work' = TreeAt(latest) /\ wm' = MapAt(latest) /\ nops' = 0
+  /\ fast' = f /\ version' = latest /\ work' = TreeAt(latest) /\ wm' = MapAt(latest) /\ nops' = 0 /\ WClear
   /\ UNCHANGED <<saved, first, latest, iv, vm, done>>
   /\ Log("reopen", [fast |-> f], [ver |-> latest, err |-> FALSE])
 
@@ -123,39 +157,39 @@ LoadVersion(t) ==
   LET tt == IF t = 0 THEN latest ELSE t IN
   IF latest = 0 /\ t = 0 THEN
      \* nothing to load: the call returns 0 and the working state stays as it is
-     /\ UNCHANGED <<work, saved, first, latest, version, fast, iv, nops, wm, vm, done>>
+     /\ UNCHANGED <<work, saved, first, latest, version, fast, iv, nops, wm, vm, wlog, done>>
      /\ Log("load", [t |-> t], [ver |-> 0, err |-> FALSE])
   ELSE IF tt \in Retained THEN
-     /\ version' = tt /\ work' = TreeAt(tt) /\ wm' = MapAt(tt) /\ nops' = 0
+     /\ version' = tt /\ work' = TreeAt(tt) /\ wm' = MapAt(tt) /\ nops' = 0 /\ WClear
      /\ UNCHANGED <<saved, first, latest, fast, iv, vm, done>>
      /\ Log("load", [t |-> t], [ver |-> latest, err |-> FALSE])
   ELSE
-     /\ UNCHANGED <<work, saved, first, latest, version, fast, iv, nops, wm, vm, done>>
+     /\ UNCHANGED <<work, saved, first, latest, version, fast, iv, nops, wm, vm, wlog, done>>
      /\ Log("load", [t |-> t], [err |-> TRUE])
 
 \* LoadVersionForOverwriting(t), t >= 1: load t and erase every later version
 LoadVersionForOverwriting(t) ==
   IF t \in Retained THEN
      /\ saved' = Restrict(saved, first..t) /\ vm' = Restrict(vm, first..t)
-     /\ latest' = t /\ version' = t /\ work' = saved[t] /\ wm' = vm[t] /\ nops' = 0
+     /\ latest' = t /\ version' = t /\ work' = saved[t] /\ wm' = vm[t] /\ nops' = 0 /\ WClear
      /\ UNCHANGED <<first, fast, iv, done>>
      /\ Log("lvfo", [t |-> t], [err |-> FALSE])
   ELSE
-     /\ UNCHANGED <<work, saved, first, latest, version, fast, iv, nops, wm, vm, done>>
+     /\ UNCHANGED <<work, saved, first, latest, version, fast, iv, nops, wm, vm, wlog, done>>
      /\ Log("lvfo", [t |-> t], [err |-> TRUE])
 
 \* DeleteVersionsTo(n): never the latest version; below the first version: nothing to do
 DeleteVersionsTo(n) ==
   IF n >= latest THEN
-     /\ UNCHANGED <<work, saved, first, latest, version, fast, iv, nops, wm, vm, done>>
+     /\ UNCHANGED <<work, saved, first, latest, version, fast, iv, nops, wm, vm, wlog, done>>
      /\ Log("delto", [n |-> n], [err |-> TRUE])
   ELSE IF n < first THEN
-     /\ UNCHANGED <<work, saved, first, latest, version, fast, iv, nops, wm, vm, done>>
+     /\ UNCHANGED <<work, saved, first, latest, version, fast, iv, nops, wm, vm, wlog, done>>
      /\ Log("delto", [n |-> n], [err |-> FALSE])
   ELSE
      /\ first' = n + 1
      /\ saved' = Restrict(saved, (n + 1)..latest) /\ vm' = Restrict(vm, (n + 1)..latest)
-     /\ UNCHANGED <<work, latest, version, fast, iv, nops, wm, done>>
+     /\ UNCHANGED <<work, latest, version, fast, iv, nops, wm, wlog, done>>
      /\ Log("delto", [n |-> n], [err |-> FALSE])
 \* contract (doc.go): the version a live handle has loaded is not deleted under it
 DelOk(n) == n < version \/ n >= latest
@@ -165,11 +199,16 @@ ImportSwitch(t, f) ==
   /\ t \in Retained
   /\ LET s == ImportTree(saved[t], t) IN
      /\ saved' = (t :> s) /\ vm' = (t :> vm[t])
-     /\ first' = t /\ latest' = t /\ version' = t /\ work' = s /\ wm' = vm[t] /\ nops' = 0 /\ fast' = f
+     /\ first' = t /\ latest' = t /\ version' = t /\ work' = s /\ wm' = vm[t] /\ nops' = 0 /\ fast' = f /\ WClear
      /\ UNCHANGED <<iv, done>>
      /\ Log("import", [t |-> t, fast |-> f], [err |-> FALSE, tree |-> s])
 
 ---------------------------------------------------------------------------
+\* candidate change sets: sequences of one or two pairs
+CSPairs == [k : Keys, v : Vals, del : BOOLEAN]
+CSCands == {<<p>> : p \in CSPairs} \cup {<<p, q>> : p \in CSPairs, q \in CSPairs}
+CSCandsB == {<<p>> : p \in CSPairs} \cup {<<p, q>> : p \in {x \in CSPairs : x.v = 0}, q \in {x \in CSPairs : x.v = 0}}
+
 \* exhaustive exploration (bounded by MaxVer commits and MaxOps writes per version)
 NextBounded ==
   \/ nops < MaxOps /\ \E k \in Keys, v \in Vals : Set(k, v)
@@ -181,17 +220,20 @@ NextBounded ==
   \/ \E t \in 1..(latest + 1) : LoadVersionForOverwriting(t)
   \/ \E n \in 0..(latest + 1) : DelOk(n) /\ DeleteVersionsTo(n)
   \/ \E t \in Retained, f \in BOOLEAN : ImportSwitch(t, f)
+  \/ nops < MaxOps /\ (latest < MaxVer \/ Target \in Retained) /\ \E cs \in CSCandsB : SaveChangeSet(cs)
 
 \* simulation: pick an action class at random, then TLC picks one enabled instance uniformly;
 \* exactly one line per behaviour is printed by Finish
 Finish == /\ Len(hist) >= D /\ ~done /\ done' = TRUE
-          /\ UNCHANGED <<work, saved, first, latest, version, fast, iv, nops, wm, vm, hist>>
+          /\ UNCHANGED <<work, saved, first, latest, version, fast, iv, nops, wm, vm, wlog, hist>>
           /\ PrintT(<<"TRACE", ToJson(hist)>>)
 
 NextSim ==
   IF Len(hist) >= D THEN Finish
   ELSE LET c == Classes[RandomElement(1..Len(Classes))] IN
     CASE c = "set"      -> \E k \in Keys, v \in Vals : Set(k, v)
+      [] c = "setnew"   -> IF KeysOf(work) = Keys THEN \E k \in Keys, v \in Vals : Set(k, v)
+                           ELSE \E k \in Keys \ KeysOf(work), v \in Vals : Set(k, v)
       [] c = "setnil"   -> \E k \in Keys : SetNil(k)
       [] c = "rm"       -> \E k \in Keys : Remove(k)
       [] c = "rmhit"    -> IF IsNil(work) THEN \E k \in Keys : Remove(k) ELSE \E k \in KeysOf(work) : Remove(k)
@@ -202,6 +244,7 @@ NextSim ==
       [] c = "lvfo"     -> \E t \in 1..(latest + 1) : LoadVersionForOverwriting(t)
       [] c = "delto"    -> \E n \in 0..(latest + 1) : DelOk(n) /\ DeleteVersionsTo(n)
       [] c = "import"   -> IF latest = 0 THEN SaveVersion ELSE \E t \in Retained, f \in BOOLEAN : ImportSwitch(t, f)
+      [] c = "savecs"   -> \E cs \in CSCands : SaveChangeSet(cs)
       [] OTHER          -> SaveVersion
 
 SpecBounded == Init /\ [][NextBounded]_vars
